@@ -648,7 +648,17 @@ def hooked_max(*args, key=None, **kw):
 
 
 _installed = False
-NUDGE_AFTER_S = 1.5
+NUDGE_AFTER_S = 3.0
+
+
+def _nudge_after() -> float:
+    """The stall threshold grows with the load of the machine: a runnable thread that merely gets no CPU is not a stall."""
+    try:
+        import os
+        ratio = os.getloadavg()[0] / max(1, os.cpu_count() or 1)
+    except (OSError, AttributeError):
+        ratio = 1.0
+    return NUDGE_AFTER_S * min(6.0, max(1.0, ratio))
 
 
 def _nudger() -> None:
@@ -656,13 +666,13 @@ def _nudger() -> None:
     private wait ...): the controller would never complete that node and the execution would sit until the watchdog.
     When nothing has happened for NUDGE_AFTER_S while nodes are parked, the lowest parked node is completed as if it
     had finished by itself ('forced' event). Never triggers on the unchanged scheduler, which reaches a hook within
-    microseconds."""
+    microseconds (the threshold is seconds, scaled up with the load average of the machine)."""
     while True:
         _time.sleep(0.1)
         c = CTL
         if c is None or not c.counting or c.in_complete:
             continue
-        if _time.monotonic() - c.last_ev < NUDGE_AFTER_S:
+        if _time.monotonic() - c.last_ev < _nudge_after():
             continue
         recs = sorted((r for r in c.recs if r.entered.is_set() and not r.finished.is_set() and not r.gate.is_set()),
                       key=lambda r: (str(r.id), r.n))
